@@ -219,7 +219,12 @@ def rule_tid_gate(ctx, res, d, gate_inside=False):
     s2 = Sym(fb)
     s2.run()
     somes = [p for p in s2.complete_paths() if agg_variant(p.ret) == 'Some']
-    ok = len(somes) >= 1 and all(find_calls(p.ret, 'try_into') or find_calls(p.ret, 'try_from') for p in somes)
+    def whole_conversion(p):
+        # the fallible conversion must be of the whole byte string handed in (a conversion of a prefix accepts over-long ids)
+        cs = find_calls(p.ret, 'try_into') + find_calls(p.ret, 'try_from')
+        cs += [x for c in p.conds for x in find_calls(literal(c)[1], 'try_into') + find_calls(literal(c)[1], 'try_from')]
+        return bool(cs) and all(is_param(strip_transparent(c[2][0])) and strip_transparent(c[2][0])[1] == 1 for c in cs)
+    ok = len(somes) >= 1 and all(whole_conversion(p) for p in somes)
     adt = ctx.f.adts.get('transaction::TransactionID')
     fty = adt['variants'][0]['fields'][0].get('ty_norm') if adt else None
     n = ctx.f.const_value('transaction::TRANSACTION_ID_BYTES')
